@@ -55,7 +55,14 @@ fn latin1(s: &str) -> Vec<u8> {
 }
 
 /// Consumer: next field -> all its chunks -> next field ...; polled only when woken or after a feed.
-fn run_case(case: &Value, out: &mut TraceOut) {
+/// runs one case and returns its events (used by the totality area)
+pub fn collect_events(case: &Value) -> Vec<Value> {
+    let mut v = vec![];
+    run_case(case, &mut |e| v.push(e));
+    v
+}
+
+fn run_case(case: &Value, out: &mut dyn FnMut(Value)) {
     let body = latin1(case["body"].as_str().unwrap());
     let boundary = case["boundary"].as_str().unwrap();
     let mut headers = HeaderMap::new();
@@ -81,7 +88,7 @@ fn run_case(case: &Value, out: &mut TraceOut) {
             loop {
                 polls += 1;
                 if polls > 200_000 {
-                    out.emit(json!({"ev":"Stall","why":"poll budget exhausted"}));
+                    out(json!({"ev":"Stall","why":"poll budget exhausted"}));
                     return;
                 }
                 let mut cx = Context::from_waker(&waker);
@@ -90,13 +97,13 @@ fn run_case(case: &Value, out: &mut TraceOut) {
                         Poll::Pending => break,
                         Poll::Ready(Some(Ok(b))) => got.extend_from_slice(&b),
                         Poll::Ready(Some(Err(e))) => {
-                            out.emit(json!({"ev":"Err","kind":format!("{e:?}").split(|c: char| !c.is_alphanumeric()).next().unwrap_or(""),"in":"field"}));
+                            out(json!({"ev":"Err","kind":format!("{e:?}").split(|c: char| !c.is_alphanumeric()).next().unwrap_or(""),"in":"field"}));
                             finished = true;
                             break;
                         }
                         Poll::Ready(None) => {
                             let want = fields.get(idx - 1).map(|f| latin1(f["content"].as_str().unwrap())).unwrap_or_default();
-                            out.emit(json!({"ev":"FieldEnd","n":got.len(),"ok":got == want}));
+                            out(json!({"ev":"FieldEnd","n":got.len(),"ok":got == want}));
                             cur = None;
                             got.clear();
                         }
@@ -107,16 +114,16 @@ fn run_case(case: &Value, out: &mut TraceOut) {
                         Poll::Ready(Some(Ok(f))) => {
                             idx += 1;
                             let want = fields.get(idx - 1).and_then(|f| f["name"].as_str()).unwrap_or("\u{0}");
-                            out.emit(json!({"ev":"Field","name_ok": f.name() == Some(want)}));
+                            out(json!({"ev":"Field","name_ok": f.name() == Some(want)}));
                             cur = Some(f);
                         }
                         Poll::Ready(Some(Err(e))) => {
-                            out.emit(json!({"ev":"Err","kind":format!("{e:?}").split(|c: char| !c.is_alphanumeric()).next().unwrap_or(""),"in":"multipart"}));
+                            out(json!({"ev":"Err","kind":format!("{e:?}").split(|c: char| !c.is_alphanumeric()).next().unwrap_or(""),"in":"multipart"}));
                             finished = true;
                             break;
                         }
                         Poll::Ready(None) => {
-                            out.emit(json!({"ev":"End"}));
+                            out(json!({"ev":"End"}));
                             finished = true;
                             break;
                         }
@@ -137,7 +144,7 @@ fn run_case(case: &Value, out: &mut TraceOut) {
             s.eof = true;
         } else {
             drop(s);
-            out.emit(json!({"ev":"Stall","why":"pending after end of stream without a wake-up"}));
+            out(json!({"ev":"Stall","why":"pending after end of stream without a wake-up"}));
             return;
         }
         if let Some(w) = s.waker.take() {
@@ -153,7 +160,7 @@ pub fn replay(cases: &[Value], out: &mut TraceOut) {
     for (i, case) in cases.iter().enumerate() {
         let gt: Vec<Value> = case["fields"].as_array().unwrap().iter().map(|f| json!({"name": f["name"], "len": f["content"].as_str().unwrap().chars().count()})).collect();
         out.emit(json!({"ev":"Reset","run":i+1,"fields":gt,"complete":case["complete"],"lie":case["lie"]}));
-        if let Err(p) = guarded(|| run_case(case, out)) {
+        if let Err(p) = guarded(|| run_case(case, &mut |e| out.emit(e))) {
             out.emit(json!({"ev":"Panic","msg":p}));
         }
     }
